@@ -26,6 +26,9 @@ def run(project, rep):
     from .. import rules_dates as Z
     from .. import rules_wire as L
     rep.run(Z.z_r2_naive, project, rep)
+    rep.rule("T-R8", "texts that do not denote a date-time / time are rejected when read: the grammar of the two patterns (Z-R1, Z-R1b)")
+    rep.run(Z.z_r1_grammar, project, rep)
+    rep.run(Z.z_r1b_separators, project, rep)
     rep.run(Z.z_r4_conversion, project, rep)
     rep.run(Z.z_r5_offset_sign, project, rep)
     rep.run(Z.z_r6_carrier_date, project, rep)
